@@ -23,6 +23,11 @@ The three 1-D filter Laplacians are internal to gen_laplacian_filter_kernel_3d; 
 kernel registry (rv.kernelspy) by access signature (one written field at offset 0, one read field at
 {0, +e_a, -e_a}) and called directly.  Only cells where the stencil fits (index >= reach) are compared.
 
+Workload diversity (added after the seeded-change campaign): one of the dyadic grids per dimension is TALL (11x8:
+grid_size_y > grid_size_x) resp. has x as its shortest axis (10x9x8); every part-0 shard builds a sibling simulator with
+the shape and precision of its first grid but another x_range; every scalar kernel argument (prefactor, inv_dx) is passed
+alternately as real_t and as a python float; all grids of a shard go through the SAME generated kernel objects.
+
 Deliberate breaks tried (tools/mut.sh --sed '<expr>' <file> C05, quick tier, seed 0; files under
 sopht/numeric/eulerian_grid_ops/stencil_ops_{2d,3d}/ unless noted): mutation -> VIOLATION mechanism
   M1  curl_3d.py  curl_y "field_x[1,0,0] - field_x[-1,0,0]" -> "+" (sign)        -> curl_3d!=curl
@@ -79,9 +84,13 @@ ASSUMPTIONS = [
 ]
 REQUIRE = {
     "obligations": {"quick": 7900, "thorough": 36000},
-    # complete finite set on the three dyadic grids: per precision 216 (2-D operators) + 240 (3-D diffusion)
-    # + 360 (curl, divergence) + 360 (updates, stretching) + 360 (filter Laplacians) = 1536
-    "obligations_exact_leg": 3072,
+    # complete finite set on the four dyadic grids: per precision and grid 72 (2-D operators) + 80 (3-D diffusion)
+    # + 120 (curl, divergence) + 120 (updates, stretching) + 120 (filter Laplacians) = 512
+    "obligations_exact_leg": 4096,
+    "grids_tall_or_x_shortest": 12,
+    "grids_sibling_same_shape_other_dx": 12,
+    "scalar_args_python_float": 1000,
+    "scalar_args_real_t": 1000,
     "basis_sweeps_complete": {"quick": 320, "thorough": 1470},
     "eno3_cells_faces_upwind_differently_diverging": 50,
     "eno3_cells_faces_upwind_differently_converging": 50,
@@ -93,8 +102,10 @@ F64 = np.float64
 
 GROUPS = ("ops2d", "eno2d", "diff3d", "curldiv3d", "upd3d", "filt_eno3d")
 DYADIC = {
-    2: [((7, 8), 1.0), ((9, 16), 0.5), ((6, 8), 4.0)],
-    3: [((5, 6, 8), 1.0), ((7, 5, 16), 0.5), ((6, 5, 8), 4.0)],
+    # the last entry of each list is TALL (grid_size_y > grid_size_x) resp. has x as the SHORTEST axis (z > y > x): a kernel
+    # that slices / iterates with the extents of the wrong axis is only wrong there
+    2: [((7, 8), 1.0), ((9, 16), 0.5), ((6, 8), 4.0), ((11, 8), 1.0)],
+    3: [((5, 6, 8), 1.0), ((7, 5, 16), 0.5), ((6, 5, 8), 4.0), ((10, 9, 8), 1.0)],
 }
 
 
@@ -192,6 +203,15 @@ class Ctx:
         if exact and not np.array_equal(b.astype(F64), a):
             raise AssertionError(f"harness premise broken: input not representable in {self.dtype} {self.meta}")
         return b
+
+    def scalar(self, x):
+        """scalar kernel argument, alternately as real_t (what the simulators pass) and as a plain python float"""
+        self.nscal = getattr(self, "nscal", 0) + 1
+        if self.nscal % 2:
+            self.rec.count("scalar_args_real_t")
+            return self.real_t(x)
+        self.rec.count("scalar_args_python_float")
+        return float(x)
 
     def sentinel(self, lead=()):
         return util.sentinel_like(self.rng, tuple(lead) + self.shape, self.real_t)
@@ -308,7 +328,7 @@ def op_diffusion_scalar(ctx, kern):
         f = ctx.arr(peval(p, ctx.P), exact)
         out = ctx.sentinel()
         pref = c / ctx.dx**2
-        _call(kern, diffusion_flux=out, field=f, prefactor=ctx.real_t(pref))
+        _call(kern, diffusion_flux=out, field=f, prefactor=ctx.scalar(pref))
         return out, c * peval(plap(p, d), ctx.P), abs(pref) * 4 * d * util.maxabs(f), 1
 
     return [("f", 1)], run
@@ -319,7 +339,7 @@ def op_diffusion_vector(ctx, kern):
         f = ctx.arr(np.array([peval(p, ctx.P) for p in pl["f"]]), exact)
         out = ctx.sentinel((3,))
         pref = c / ctx.dx**2
-        _call(kern, vector_field_diffusion_flux=out, vector_field=f, prefactor=ctx.real_t(pref))
+        _call(kern, vector_field_diffusion_flux=out, vector_field=f, prefactor=ctx.scalar(pref))
         ref = np.array([c * peval(plap(p, 3), ctx.P) for p in pl["f"]])
         return out, ref, abs(pref) * 12 * util.maxabs(f), 1
 
@@ -332,7 +352,7 @@ def op_outplane(ctx, kern):
         f = ctx.arr(peval(p, ctx.P), exact)
         out = ctx.sentinel((2,))
         pref = c / (2 * ctx.dx)
-        _call(kern, curl=out, field=f, prefactor=ctx.real_t(pref))
+        _call(kern, curl=out, field=f, prefactor=ctx.scalar(pref))
         ref = np.array([c * peval(pdiff(p, 1), ctx.P), -c * peval(pdiff(p, 0), ctx.P)])
         return out, ref, abs(pref) * 2 * util.maxabs(f), 1
 
@@ -344,7 +364,7 @@ def op_inplane(ctx, kern):
         f = ctx.arr(np.array([peval(p, ctx.P) for p in pl["f"]]), exact)
         out = ctx.sentinel()
         pref = c / (2 * ctx.dx)
-        _call(kern, curl=out, field=f, prefactor=ctx.real_t(pref))
+        _call(kern, curl=out, field=f, prefactor=ctx.scalar(pref))
         return out, c * peval(pcurl2(pl["f"]), ctx.P), abs(pref) * 4 * util.maxabs(f), 1
 
     return [("f", 2)], run
@@ -355,7 +375,7 @@ def op_curl3(ctx, kern):
         f = ctx.arr(np.array([peval(p, ctx.P) for p in pl["f"]]), exact)
         out = ctx.sentinel((3,))
         pref = c / (2 * ctx.dx)
-        _call(kern, curl=out, field=f, prefactor=ctx.real_t(pref))
+        _call(kern, curl=out, field=f, prefactor=ctx.scalar(pref))
         ref = np.array([c * peval(q, ctx.P) for q in pcurl3(pl["f"])])
         return out, ref, abs(pref) * 4 * util.maxabs(f), 1
 
@@ -367,7 +387,7 @@ def op_div3(ctx, kern):
         f = ctx.arr(np.array([peval(p, ctx.P) for p in pl["f"]]), exact)
         out = ctx.sentinel()
         inv_dx = 1.0 / ctx.dx
-        _call(kern, divergence=out, field=f, inv_dx=ctx.real_t(inv_dx))
+        _call(kern, divergence=out, field=f, inv_dx=ctx.scalar(inv_dx))
         ref = sum(peval(pdiff(pl["f"][k], k), ctx.P) for k in range(3))
         return out, ref, 0.5 * inv_dx * 6 * util.maxabs(f), 1
 
@@ -383,7 +403,7 @@ def op_forcing(ctx, kern):
         w = ctx.arr(w0, exact)
         w0 = w.astype(F64)
         pref = c / (2 * ctx.dx)
-        _call(kern, vorticity_field=w, velocity_forcing_field=f, prefactor=ctx.real_t(pref))
+        _call(kern, vorticity_field=w, velocity_forcing_field=f, prefactor=ctx.scalar(pref))
         if d == 3:
             cu = np.array([peval(q, ctx.P) for q in pcurl3(pl["F"])])
         else:
@@ -403,7 +423,7 @@ def op_penalised(ctx, kern):
         w = ctx.arr(w0, exact)
         w0 = w.astype(F64)
         pref = c / (2 * ctx.dx)
-        _call(kern, vorticity_field=w, penalised_velocity_field=up, velocity_field=u, prefactor=ctx.real_t(pref))
+        _call(kern, vorticity_field=w, penalised_velocity_field=up, velocity_field=u, prefactor=ctx.scalar(pref))
         diff = [padd(a, b, -1.0) for a, b in zip(pl["upen"], pl["u"])]
         if d == 3:
             cu = np.array([peval(q, ctx.P) for q in pcurl3(diff)])
@@ -421,7 +441,7 @@ def op_stretching(ctx, kern):
         W = w.astype(F64)
         out = ctx.sentinel((3,))
         pref = c / (2 * ctx.dx)
-        _call(kern, vorticity_stretching_flux_field=out, vorticity_field=w, velocity_field=u, prefactor=ctx.real_t(pref))
+        _call(kern, vorticity_stretching_flux_field=out, vorticity_field=w, velocity_field=u, prefactor=ctx.scalar(pref))
         ref = np.array([c * sum(W[k] * peval(pdiff(pl["u"][cc], k), ctx.P) for k in range(3)) for cc in range(3)])
         return out, ref, abs(pref) * 6 * util.maxabs(W) * util.maxabs(u), 1
 
@@ -495,7 +515,7 @@ def eno_sweep(ctx, key, mech, kern):
         V[comp] = ctx.arr(v64, False)
         out = np.zeros(ctx.shape, ctx.real_t)
         try:
-            _call(kern, advection_flux=out, field=f, velocity=V, inv_dx=ctx.real_t(inv_dx))
+            _call(kern, advection_flux=out, field=f, velocity=V, inv_dx=ctx.scalar(inv_dx))
         except _Raised as ex:
             rec.violation(f"{key}-raises", f"{ex} input={label} {ctx.meta}", {"meta": ctx.meta})
             rec.case(None)
@@ -638,6 +658,8 @@ def run_shard(sh, rec):
     grids = []
     if sh["fixed"]:
         grids += [(s, xr, "exact") for s, xr in DYADIC[d]]
+        # sibling simulator: SAME shape and precision as the first grid of this process, other x_range (dx)
+        grids.append((DYADIC[d][0][0], float(rng.uniform(0.3, 7.0)), "noise"))
     for _ in range(sh["nrand"]):
         shape = util.shape2d(rng, 5, 24) if d == 2 else util.shape3d(rng, 5, 12)
         grids.append((shape, float(rng.uniform(0.3, 7.0)), "noise"))
@@ -648,6 +670,10 @@ def run_shard(sh, rec):
         if tuple(sim.position_field.shape) != (d, *shape) or sim.position_field.dtype != np.dtype(real_t):
             raise AssertionError(f"unexpected position_field {sim.position_field.shape} {sim.position_field.dtype}")
         rec.count("grids_exact_leg" if leg == "exact" else "grids_noise_leg")
+        if shape[0] > shape[-1]:
+            rec.count("grids_tall_or_x_shortest")
+        if leg == "noise" and sh["fixed"] and tuple(shape) == tuple(DYADIC[d][0][0]):
+            rec.count("grids_sibling_same_shape_other_dx")
         for key, mech, opts, k, builder in ops:
             if k is None:
                 continue
